@@ -157,6 +157,37 @@ pub fn run(tier: Tier) -> ! {
         families.push(json!({"family": "class pairs: every ordered pair (X,Y) of a menu of near-identical one-character classes as patterns (X)+, (Y)+, (X)(Y)", "menu": menu, "pairs": pairs.len(), "inputs": insc.len(), "exhaustive": true}));
     }
 
+    // registration order: character class ids follow the order of first use, not the priority order
+    // of the patterns that compete; a leading pattern `#XYZ` (never matched here) registers the
+    // classes of three competing patterns in every permutation
+    {
+        let menu = ["a", "[ab]", "\\w", ".", "[^b]", "[a-z]+"];
+        let mut cfgs = vec![];
+        let perms: [[usize; 3]; 6] = [[0, 1, 2], [0, 2, 1], [1, 0, 2], [1, 2, 0], [2, 0, 1], [2, 1, 0]];
+        for x in 0..menu.len() {
+            for y in 0..menu.len() {
+                for z in 0..menu.len() {
+                    if x == y || y == z || x == z {
+                        continue;
+                    }
+                    let pats = [menu[x], menu[y], menu[z]];
+                    for p in perms {
+                        let reg = format!("#({})({})({})", pats[p[0]], pats[p[1]], pats[p[2]]);
+                        cfgs.push(Cfg::single(vec![bridge::CPat::new(&reg, 9), bridge::CPat::new(pats[0], 2), bridge::CPat::new(pats[1], 0), bridge::CPat::new(pats[2], 1)]));
+                    }
+                }
+            }
+        }
+        let ins3 = inputs(&['a', 'b', 'x', '#'], 3);
+        let accs = par_for(cfgs.len(), 8, || Acc { samples: Samples::new(1), ..Default::default() }, |acc, i| {
+            run_cfg(acc, &cfgs[i], &ins3, &tables, "registration-order");
+        });
+        for a in accs {
+            merge(&mut total, a);
+        }
+        families.push(json!({"family": "registration order: three competing patterns (all ordered triples of 6 overlapping one-class patterns) behind a leading pattern that registers their classes in each of the 6 permutations", "configurations": cfgs.len(), "inputs": ins3.len(), "exhaustive": true}));
+    }
+
     // long inputs: corpora on their input files, synthetic inputs beyond 2^8 / 2^16 bytes
     {
         let cases = crate::longscan::long_cases(false);
